@@ -174,7 +174,7 @@ package app
 //@   ensures C17.pending_other [C17]: forall z string :: z != azSpec(host, app.config.OfflineModeAZSeparator) ==> pendingOfflineByAZ[z] == old(pendingOfflineByAZ[z])
 //@   assert_at SetOnline#1 C17.resetup_fresh [C17]: !resetupStatus.Status && !(resetupStatus.UpdateTime < startupTime) && resultof("GetResetupStatus", 1, 1) == nil && resultof("GetStartupTime", 1, 1) == nil
 //@   assert_at SetOffline#1 C17.filter_ok [C17]: resultof("CanSetOffline", 1) && callrecv == node
-//@   assert_at SetOffline#2 C17.rate [C17]: now - lastShutdownNodeTime > app.config.OfflineModeEnableInterval && e_UpdateLastShutdown == old(e_UpdateLastShutdown) + 1 && callrecv == node
+//@   assert_at SetOffline#2 C17.rate [C17]: time_now - lastShutdownNodeTime > app.config.OfflineModeEnableInterval && e_UpdateLastShutdown == old(e_UpdateLastShutdown) + 1 && callrecv == node
 //@   assert_after SetOffline#1 C17.pending_inc_pre [C17]: pendingOfflineByAZ[azSpec(host, app.config.OfflineModeAZSeparator)] == old(pendingOfflineByAZ[azSpec(host, app.config.OfflineModeAZSeparator)])
 //@   ensures C17.pending_inc [C17]: pendingOfflineByAZ[azSpec(host, app.config.OfflineModeAZSeparator)] == old(pendingOfflineByAZ[azSpec(host, app.config.OfflineModeAZSeparator)]) || (pendingOfflineByAZ[azSpec(host, app.config.OfflineModeAZSeparator)] == old(pendingOfflineByAZ[azSpec(host, app.config.OfflineModeAZSeparator)]) + 1 && e_SetOffline > old(e_SetOffline) && resultof("SetOffline", 1) == nil)
 
@@ -205,10 +205,10 @@ package app
 //@   requires vals_nonnil [safety]: (forall k string :: has(clusterState, k) ==> clusterState[k] != nil) && clusterStateDcs[master] != nil
 //@   ensures C05.enabled [C05]: result == nil ==> app.config.Failover
 //@   ensures C05.notall [C05]: result == nil && !skipHealthGates(app, clusterStateDcs, master) ==> !(cntRunningHA(clusterState) > 0 && cntRunningHA(clusterState) == cntHA(clusterState) - 1)
-//@   ensures C05.delay [C05]: result == nil && !skipHealthGates(app, clusterStateDcs, master) && app.config.FailoverDelay > 0 ==> now - old(app.t.m[NodeFailedAt][master]) >= app.config.FailoverDelay
+//@   ensures C05.delay [C05]: result == nil && !skipHealthGates(app, clusterStateDcs, master) && app.config.FailoverDelay > 0 ==> time_now - old(app.t.m[NodeFailedAt][master]) >= app.config.FailoverDelay
 //@   ensures C05.quorum [C05]: result == nil ==> quorumOK(app, activeNodes, cntAliveIn(clusterState, activeNodes))
 //@   ensures C05.noeffect [C05]: tick == old(tick)
-//@   assert_at return#* C05.cooldown [C05]: result == nil ==> errIs(resultof("GetLastSwitchover", 1), dcs.ErrNotFound) || (resultof("GetLastSwitchover", 1) == nil && lastSwitchover.Result != nil && !(now - lastSwitchover.Result.FinishedAt < app.config.FailoverCooldown && lastSwitchover.Cause == CauseAuto))
+//@   assert_at return#* C05.cooldown [C05]: result == nil ==> errIs(resultof("GetLastSwitchover", 1), dcs.ErrNotFound) || (resultof("GetLastSwitchover", 1) == nil && lastSwitchover.Result != nil && !(time_now - lastSwitchover.Result.FinishedAt < app.config.FailoverCooldown && lastSwitchover.Cause == CauseAuto))
 
 // ---- C06: switch request bookkeeping ---------------------------------------------------------------
 
@@ -246,3 +246,105 @@ package app
 //@   ensures C05.create_if_absent [C05,C06]: e_CreateSwitch == old(e_CreateSwitch) + 1 && e_SetSwitch == old(e_SetSwitch) && e_DeleteSwitch == old(e_DeleteSwitch)
 //@   ensures C05.not_over_pending [C05,C06]: old(d_switchPresent) ==> result != nil
 //@   assert_at CreateCurrentSwitchover#1 C05.auto_cause [C05,C06]: callarg0.Cause == CauseAuto && callarg0.MasterTransition == FailoverTransition && callarg0.From == master && callarg0.RunCount == 0 && callarg0.Result == nil
+
+// ---- C03 / C09: lock, master discovery, maintenance ----------------------------------------------------
+
+//@ func (*app.App).AcquireLock
+//@   ensures C03.confirmed [C03]: result ==> lockAt > old(tick) && lockAt == tick
+//@   ensures C03.one_call [C03]: tick <= old(tick) + 1
+//@   ensures C03.cooldown [C03]: old(app.lostQuorumTime) != 0 && time_now - old(app.lostQuorumTime) >= app.config.ManagerElectionDelayAfterQuorumLoss && time_now - old(app.lostQuorumTime) <= app.config.ManagerElectionDelayAfterQuorumLoss + app.config.ManagerLockAcquireDelayAfterQuorumLoss ==> !result && tick == old(tick)
+
+//@ define aliveMaster(cs map[string]*nodestate.NodeState, k string) = cs[k].PingOk && cs[k].IsMaster
+//@ define cntAliveMasters(cs map[string]*nodestate.NodeState, S set[string]) = count(k string in S :: aliveMaster(cs, k))
+
+//@ func (*app.App).getMasterHost
+//@   requires vals_nonnil [safety]: forall k string :: has(clusterState, k) ==> clusterState[k] != nil
+//@   loop 1 invariant cnt: len(masters) == cntAliveMasters(clusterState, visited)
+//@   loop 1 invariant elems: forall i int :: in_range(i, masters) ==> has(clusterState, masters[i]) && aliveMaster(clusterState, masters[i])
+//@   ensures C09.one [C09]: result1 == nil && result0 != "" ==> cntAliveMasters(clusterState, dom(clusterState)) == 1 && has(clusterState, result0) && aliveMaster(clusterState, result0)
+//@   ensures C09.many [C09]: cntAliveMasters(clusterState, dom(clusterState)) > 1 <==> (result1 != nil)
+//@   ensures C09.many_err [C09]: result1 != nil ==> errIs(result1, ErrManyMasters) && result0 == ""
+//@   ensures C09.none [C09]: cntAliveMasters(clusterState, dom(clusterState)) == 0 ==> result0 == "" && result1 == nil
+//@   ensures C09.pure [C09]: tick == old(tick)
+
+//@ func (*app.App).ensureCurrentMaster
+//@   requires vals_nonnil [safety]: forall k string :: has(clusterState, k) ==> clusterState[k] != nil
+//@   ensures C09.ensure_ok [C09]: result1 == nil ==> cntAliveMasters(clusterState, dom(clusterState)) == 1 && has(clusterState, result0) && aliveMaster(clusterState, result0) && d_master == result0 && e_SetMaster == old(e_SetMaster) + 1
+//@   ensures C09.ensure_many [C09]: cntAliveMasters(clusterState, dom(clusterState)) > 1 ==> result1 != nil && errIs(result1, ErrManyMasters) && e_SetMaster == old(e_SetMaster)
+//@   ensures C09.ensure_none [C09]: cntAliveMasters(clusterState, dom(clusterState)) == 0 ==> result1 != nil && e_SetMaster == old(e_SetMaster)
+//@   ensures C09.ensure_frame [C09]: touched == old(touched) && e_SetActive == old(e_SetActive) && e_SetMaster <= old(e_SetMaster) + 1
+
+//@ func (*app.App).getCurrentMaster
+//@   requires vals_nonnil [safety]: forall k string :: has(clusterState, k) ==> clusterState[k] != nil
+//@   ensures C09.current_frame [C09,C10]: touched == old(touched) && e_SetActive == old(e_SetActive) && e_SetMaster <= old(e_SetMaster) + 1
+//@   ensures C09.current_write [C09]: e_SetMaster > old(e_SetMaster) ==> result1 != nil || (cntAliveMasters(clusterState, dom(clusterState)) == 1 && aliveMaster(clusterState, result0) && d_master == result0)
+
+//@ func (*app.App).enterMaintenance
+//@   requires nonnil [safety]: maintenance != nil
+//@   ensures C09.enter_ack [C09]: result == nil ==> maintenance.MySyncPaused && e_SetMaint == old(e_SetMaint) + 1
+//@   ensures C09.enter_effects [C09]: e_SetWritable == old(e_SetWritable) && e_SetReadOnly == old(e_SetReadOnly) && e_ChangeMaster == old(e_ChangeMaster) && e_ResetSlaveAll == old(e_ResetSlaveAll) && e_SetOffline == old(e_SetOffline) && e_SetOnline == old(e_SetOnline) && e_SetMaster == old(e_SetMaster) && e_SetActive == old(e_SetActive)
+//@   ensures C09.enter_semisync [C09]: !app.config.DisableSemiSyncReplicationOnMaintenance ==> touched == old(touched) && e_DeleteActive == old(e_DeleteActive)
+//@   ensures C09.enter_order [C09]: e_SetMaint > old(e_SetMaint) && app.config.DisableSemiSyncReplicationOnMaintenance ==> e_SemiSyncDisable == old(e_SemiSyncDisable) + 1 && e_DeleteActive == old(e_DeleteActive) + 1
+
+//@ define mysqlUntouched() = touched == old(touched)
+//@ define topologyKeysUntouched() = e_SetMaster == old(e_SetMaster) && e_SetActive == old(e_SetActive) && e_DeleteActive == old(e_DeleteActive)
+
+//@ func (*app.App).leaveMaintenance
+//@   ensures C09.leave_ok [C09]: result == nil ==> e_DeleteMaint == old(e_DeleteMaint) + 1 && !d_maintPresent && e_SetMaster == old(e_SetMaster) + 1
+//@   ensures C09.leave_kept [C09]: result != nil && e_DeleteMaint > old(e_DeleteMaint) ==> e_DeleteMaint == old(e_DeleteMaint) + 1 && resultof("DeleteMaintenance", 1) != nil
+//@   ensures C09.leave_many [C09]: result != nil && errIs(result, ErrManyMasters) && reached("ensureCurrentMaster", 1) && resultof("ensureCurrentMaster", 1, 1) == result ==> e_WriteEmerge == old(e_WriteEmerge) + 1
+//@   assert_at DeleteMaintenance#1 C09.leave_conditions [C09]: len(activeNodes) > 0 && resultof("GetActiveNodes", 1, 1) == nil && resultof("ensureCurrentMaster", 1, 1) == nil && d_master == master && resultof("updateActiveNodes", 1) == nil
+//@   assert_at writeEmergeFile#1 C09.leave_emerge [C09]: errIs(resultof("ensureCurrentMaster", 1, 1), ErrManyMasters)
+
+//@ func (*app.App).tryLeaveMaintenance
+//@   ensures C09.try_manager [C09]: result == stateManager ==> resultof("AcquireLock", 1) && resultof("leaveMaintenance", 1) == nil
+//@   ensures C09.try_nolock [C09]: !resultof("AcquireLock", 1) ==> result == stateCandidate && mysqlUntouched() && topologyKeysUntouched() && e_DeleteMaint == old(e_DeleteMaint)
+//@   ensures C09.try_failed [C09]: resultof("AcquireLock", 1) && resultof("leaveMaintenance", 1) != nil ==> result == stateMaintenance && e_RemoveMaint == old(e_RemoveMaint)
+
+//@ func (*app.App).stateMaintenance
+//@   ensures C09.maint_stays [C09]: !reached("tryLeaveMaintenance", 1) ==> result == stateMaintenance && mysqlUntouched() && topologyKeysUntouched() && e_DeleteMaint == old(e_DeleteMaint) && e_SetMaint == old(e_SetMaint)
+//@   assert_at tryLeaveMaintenance#1 C09.maint_leave_only [C09]: errIs(resultof("GetMaintenance", 1, 1), dcs.ErrNotFound) || (resultof("GetMaintenance", 1, 1) == nil && maintenance.ShouldLeave)
+
+//@ func (*app.App).stateCandidate
+//@   ensures C09.cand_noeffect [C09,C03]: mysqlUntouched() && topologyKeysUntouched() && switchKeysUntouched() && e_SetMaint == old(e_SetMaint) && e_DeleteMaint == old(e_DeleteMaint)
+//@   ensures C09.cand_follows [C09]: result == stateMaintenance ==> resultof("GetMaintenance", 1, 1) == nil && resultof("GetMaintenance", 1, 0).MySyncPaused && resultof("GetMaintenance", 1, 0).Mode != LightMode
+//@   ensures C09.cand_manager [C09,C03]: result == stateManager ==> resultof("AcquireLock", 1)
+
+//@ func (*app.App).stateFirstRun
+//@   ensures C09.first_disconnected [C09]: !resultof("WaitConnected", 1) ==> mysqlUntouched() && topologyKeysUntouched() && tick == old(tick) && (result == stateMaintenance || result == stateFirstRun) && (result == stateMaintenance <==> resultof("doesMaintenanceFileExist", 1))
+//@   ensures C09.first_noeffect [C09,C03]: mysqlUntouched() && topologyKeysUntouched() && switchKeysUntouched()
+//@   ensures C09.first_manager [C09,C03]: result == stateManager ==> resultof("AcquireLock", 1)
+
+//@ func (*app.Maintenance).IsLightMode
+//@   flags inline
+//@ func (*app.Maintenance).MaintAcquired
+//@   flags inline
+
+// ---- the manager iteration (C03, C05, C06, C09) ------------------------------------------------------
+
+//@ define masterHealthBad(d map[string]*nodestate.NodeState, master string) = !d[master].PingOk || d[master].IsFileSystemReadonly
+//@ define noMaintenanceObserved(m *Maintenance, err error) = m == nil && (err == nil || errIs(err, dcs.ErrNotFound))
+
+//@ func (*app.App).stateManager
+//@   crash_invariant C03.holder [C03]: tick > old(tick) + 1 ==> lockAt >= old(tick) + 1
+//@   ensures C03.lost [C03]: !resultof("IsConnected", 1) ==> result == stateLost && tick == old(tick)
+//@   ensures C03.candidate [C03]: reached("AcquireLock", 1) && !resultof("AcquireLock", 1) ==> result == stateCandidate && mysqlUntouched() && topologyKeysUntouched() && switchKeysUntouched()
+//@   assert_at IssueFailover#1 C05.file_health_maint [C05]: noMaintenanceObserved(maintenance, resultof("GetMaintenance", 1, 1))
+//@   assert_at IssueFailover#2 C05.file_crash_maint [C05]: noMaintenanceObserved(maintenance, resultof("GetMaintenance", 1, 1))
+//@   assert_at IssueFailover#1 C05.file_health [C05]: resultof("approveFailover", 1) == nil && !lightMaintenance && maintenance == nil && errIs(resultof("GetCurrentSwitchover", 1), dcs.ErrNotFound) && resultof("AcquireLock", 1) && callarg0 == master && masterHealthBad(clusterStateDcs, master)
+//@   assert_at IssueFailover#2 C05.file_crash [C05]: resultof("approveFailover", 2) == nil && !lightMaintenance && maintenance == nil && errIs(resultof("GetCurrentSwitchover", 1), dcs.ErrNotFound) && resultof("AcquireLock", 1) && callarg0 == master && crashRecovered(app, clusterStateDcs, master)
+//@   assert_at approveFailover#1 C05.clock_bad [C05]: app.t.m[NodeFailedAt][master] != 0 && (old(app.t.m[NodeFailedAt][master]) != 0 ==> app.t.m[NodeFailedAt][master] == old(app.t.m[NodeFailedAt][master]))
+//@   assert_at repairOfflineMode#1 C05.clock_good [C05]: (!masterHealthBad(clusterStateDcs, master) ==> app.t.m[NodeFailedAt][master] == 0) && (masterHealthBad(clusterStateDcs, master) ==> lightMaintenance && app.t.m[NodeFailedAt][master] != 0) && clusterState[master].PingOk
+//@   assert_at return#* C05.suspicious [C05]: reached("GetCurrentSwitchover", 1) && errIs(resultof("GetCurrentSwitchover", 1), dcs.ErrNotFound) && !masterHealthBad(clusterStateDcs, master) && !clusterState[master].PingOk ==> e_CreateSwitch == old(e_CreateSwitch) && mysqlUntouched() && !reached("repairCluster", 1) && !reached("repairOfflineMode", 1) && !reached("updateActiveNodes", 1)
+//@   assert_at FinishSwitchover#* C06.finish_cases [C06]: (callarg1 == nil ==> reached("performSwitchover", 1) && resultof("performSwitchover", 1) == nil) && (callarg1 != nil ==> !reached("performSwitchover", 1) && !reached("StartSwitchover", 1))
+//@   assert_at FinishSwitchover#2 C06.reject_unapproved [C06]: resultof("approveSwitchover", 1) != nil && callarg1 == resultof("approveSwitchover", 1)
+//@   assert_at performSwitchover#1 C06.approved_started [C06]: resultof("approveSwitchover", 1) == nil && resultof("StartSwitchover", 1) == nil && resultof("GetCurrentSwitchover", 1) == nil && callarg2 == switchover && callarg1 == activeNodes && callarg3 == master
+//@   assert_after FinishSwitchover#1 C06.timeout [C06]: result == nil ==> !d_switchPresent && e_SetLastRejected == old(e_SetLastRejected) + 1 && e_SetLastSwitch == old(e_SetLastSwitch)
+//@   assert_at approveSwitchover#1 C06.not_timed_out [C06]: switchover.InitiatedAt == 0 || old(time_now) - switchover.InitiatedAt <= app.config.SwitchoverTimeout
+//@   assert_at FailSwitchover#1 C06.fail_counted [C06]: resultof("performSwitchover", 1) != nil && callarg0 == switchover
+//@   assert_at StartSwitchover#1 C06.limit_rejects [C06]: !overLimit(app, switchover) && resultof("approveSwitchover", 1) == nil
+//@   assert_at approveSwitchover#1 C09.light_failover [C09,C06]: !(lightMaintenance && switchover.MasterTransition == FailoverTransition)
+//@   assert_at return#* C09.full_frozen [C09]: reached("GetMaintenance", 1) && resultof("GetMaintenance", 1, 1) == nil && maintenance != nil && maintenance.Mode != LightMode && !reached("enterMaintenance", 1) ==> result == stateMaintenance && mysqlUntouched() && e_SetActive == old(e_SetActive) && e_DeleteActive == old(e_DeleteActive) && switchKeysUntouched()
+//@   assert_at return#* C09.full_master_key [C09]: reached("GetMaintenance", 1) && resultof("GetMaintenance", 1, 1) == nil && maintenance != nil && maintenance.Mode != LightMode && !reached("enterMaintenance", 1) ==> e_SetMaster == old(e_SetMaster)
+//@   assert_at enterMaintenance#1 C09.enter_only_unacked [C09]: maintenance != nil && !maintenance.MySyncPaused && maintenance.Mode != LightMode && mysqlUntouched() && e_SetActive == old(e_SetActive) && e_DeleteActive == old(e_DeleteActive)
+//@   assert_at return#* C09.full_entered [C09]: reached("enterMaintenance", 1) ==> (result == stateMaintenance || result == stateManager) && (result == stateMaintenance ==> resultof("enterMaintenance", 1) == nil) && switchKeysUntouched() && e_SetWritable == old(e_SetWritable) && e_ChangeMaster == old(e_ChangeMaster) && e_ResetSlaveAll == old(e_ResetSlaveAll) && e_SetReadOnly == old(e_SetReadOnly)
